@@ -246,7 +246,6 @@ def main():
         "VIR encoder/decoder pairs (harness/vir.go + harness/c06_virdec.go, lean/Cog/IR/Vir.lean); PassesTrail and the member Type options of enum values are not part of VIR",
         "the chain extractor extract/xchains (go/ast over internal/jennies/*/jennies.go), cross-checked on every run against the pass types returned at run time by CompilerPasses()",
         "tools.UpperCamelCase modelled for ASCII (x/text title-casing on [a-zA-Z0-9 ] only); c06-ucc stream",
-        "DisjunctionInferMapping's choice among several candidate discriminators depends on Go map order: the model takes the smallest, cases the model flags as ambiguous are skipped (counted as nondet)",
         "inputs on which cog's resolution helpers recurse forever (alias cycles) are not generated / not compared: a Go stack overflow cannot be recovered by the harness (C04's business)",
         "the Go oracle harness/c06_oracle.go and the Lean predicates lean/Cog/NF/Preds.lean are independent implementations of the property's normal forms; their verdicts are compared on every real chain output",
     ]
@@ -354,7 +353,7 @@ def main():
         replies = drv(reqs)
         it = iter(replies)
         st = c.cov["streams"].setdefault(stream, {"evaluations": 0, "disagreements": 0, "oracle_failures": 0, "skipped_cycle": 0,
-                                                 "skipped_nondet": 0, "nontrivial": 0, "panic": 0, "err": 0})
+                                                 "nontrivial": 0, "panic": 0, "err": 0})
         dis = []
         nt = []
         for r in rows:
@@ -367,9 +366,6 @@ def main():
                 st["skipped_cycle"] += 1
                 continue
             m = next(it)
-            if m == "nondet":
-                st["skipped_nondet"] += 1
-                continue
             if r[1] == "panic":
                 st["panic"] += 1
             if r[1] == "err":
@@ -419,7 +415,7 @@ def report_disagreement(c, hb, stream, kw, dis):
             return None
         reps = drv(reqs)
         for i, (x, mm) in enumerate(zip(rows, reps)):
-            if mm != "nondet" and mm != x[1] and x[1] != "cycle":
+            if mm != x[1] and x[1] != "cycle":
                 return i
         return None
     small = r[0]
@@ -489,7 +485,7 @@ def replay(c, hb):
     print("implementation:", r[1][:2000])
     print("model         :", m[:2000])
     print("oracle        :", r[2])
-    bad = (m != r[1] and m != "nondet")
+    bad = (m != r[1])
     if r[2].startswith("FAIL"):
         lang = req.split(" ")[1]
         for conj in failing_conjuncts(r[2]):
